@@ -155,6 +155,13 @@ def fn_span(s, m, name, start, end):
     mm = ms[0]
     ls = s.rfind('\n', 0, mm.start()) + 1
     bo = next_code_char(s, m, mm.end(), '{')
+    try:
+        semi = next_code_char(s, m, mm.end(), ';', bo)
+    except Lost:
+        semi = None
+    if semi is not None:
+        # declaration without body (trait method): both "brace" positions are the `;`
+        return attr_start(s, ls), ls, semi, semi
     bc = match_close(s, m, bo)
     return attr_start(s, ls), ls, bo, bc
 
